@@ -261,6 +261,11 @@ static void put_snapshot(void)
 }
 #endif
 
+#ifndef SHIM_SERVER
+#define CSTATE_N 14
+extern void iodine_verif_client_state(int *v) __attribute__((weak));
+#endif
+
 int __wrap_select(int nfds, fd_set *rfds, fd_set *wfds, fd_set *efds, struct timeval *tv)
 {
 	int fd, cnt = 0, i, nready;
@@ -278,7 +283,16 @@ int __wrap_select(int nfds, fd_set *rfds, fd_set *wfds, fd_set *efds, struct tim
 #ifdef SHIM_SERVER
 	put_snapshot();
 #else
-	q_u32(0);
+	if (iodine_verif_client_state) {
+		/* guarded hook in client.c (-DIODINE_VERIF): the client's transfer state at this quiescent point */
+		int v[CSTATE_N];
+		memset(v, 0, sizeof(v));
+		iodine_verif_client_state(v);
+		q_u32((uint32_t)sizeof(v));
+		q_put(v, sizeof(v));
+	} else {
+		q_u32(0);
+	}
 #endif
 	q_call();
 	nready = r_u16();
